@@ -130,8 +130,8 @@ function check (job, resp, prefix) {
         if (!(ty.label === 'name' || ty.label === 'privateId' || ty.label === '`' || ty.binop != null || ty.isAssign || ty.label === '+/-' || ['new', 'throw', 'typeof', 'delete', 'void', 'in', 'instanceof', 'yield', 'super', 'this'].includes(ty.keyword))) continue
         const off = tk.start
         if (inPrologue(off)) continue
-        if (injectedLets.find(x => off >= x.s && off < x.e)) continue // declarations execute nothing
-        const span = pairs.find(x => off >= x.s && off < x.e)
+        // an injected declaration belongs to its block: positions on it resolve into the block's line span
+        const span = injectedLets.find(x => off >= x.s && off < x.e) || pairs.find(x => off >= x.s && off < x.e)
         if (!span) continue
         const m = S.lookupGlobal(sortedToks, tk.loc.start.line - 1, tk.loc.start.column)
         if (!m) continue
@@ -150,7 +150,8 @@ function layoutProgram (rng) {
   const pre = rng.pick(['', '', '/* é€😀 */ ', '\t\t', "'ünï😀' + "])
   const L = []
   if (rng.bool(0.1)) L.push('﻿// bom file')
-  L.push('function layout(alpha, beta, gamma) {')
+  // (where the opening brace of the function sits: same line, its own line, or after parameters written one per line)
+  L.push(rng.pick(['function layout(alpha, beta, gamma) {', 'function layout(alpha, beta, gamma) {', `function layout(alpha, beta, gamma)${nl}{`, `function layout(${nl}  alpha,${nl}  beta,${nl}  gamma${nl}) {`]))
   L.push(`  const first = ${pre}alpha +${nl}      beta${nl}      + gamma.trim();`)
   L.push(`  let second = \`\${alpha}${nl}  \${beta}\`${rng.bool() ? ';' : ''}`)
   L.push(`  second += alpha${nl}    .concat(beta,${nl}       gamma)${nl}    .trim()`)
